@@ -134,8 +134,8 @@ Proof. exact (conj model_rules_are_grammar_rules (conj model_token_numbers model
 Print Assumptions C06_model_rules_are_grammar_rules.
 
 (* pymain2coq: the control flow of main() as regenerated from src/cminx/__init__.py on every run
-   (argument parsing, stacking of the sources, template validation, the exclude-filter loop, the
-   loop over the inputs) equals the specification model_main, for every environment, document
+   (argument parsing, stacking of the sources, template validation, the rst.headers check, the
+   exclude-filter loop, the loop over the inputs) equals the specification model_main, for every environment, document
    function and argument vector. *)
 Theorem C06_main_matches_source :
   forall env document toks, py_run (main env document toks) = model_main env document toks.
@@ -146,6 +146,7 @@ Theorem C06_stopping_input_is_last : forall env document toks p stack st pre f p
   parse_args cli_table toks = Some p ->
   consulted env p = Some stack ->
   settings_of (env_cwd env) stack template = Some st ->
+  headers_ok stack = true ->
   forallb (excl_src_ok excl_key) stack = true ->
   p_positional p = pre ++ f :: post ->
   forallb run_ok (map (fun x => document x (accepted_object stack st)) pre) = true ->
